@@ -219,3 +219,20 @@ Proof.
     destruct i; cbn; [reflexivity | apply IHn0; lia].
   - destruct (0 <? n)%Z eqn:E; [apply Z.ltb_lt in E; lia | reflexivity].
 Qed.
+
+(* ---------- two more facts about the OU update ---------- *)
+From Coq Require Import Lqa.
+(* with 0 <= theta*dt <= 1 the noise-free step moves towards the mean without overshooting *)
+Lemma ou_mean_step_between theta dt m x : 0 <= theta * dt -> theta * dt <= 1 ->
+  (x <= m -> x <= ou_step1 theta dt 0 m 0 x 0 /\ ou_step1 theta dt 0 m 0 x 0 <= m) /\
+  (m <= x -> m <= ou_step1 theta dt 0 m 0 x 0 /\ ou_step1 theta dt 0 m 0 x 0 <= x).
+Proof.
+  intros H0 H1. unfold ou_step1.
+  assert (E : x + theta * (m - x) * dt + 0 * 0 * 0 == x + (theta * dt) * (m - x)) by ring.
+  rewrite E. set (k := theta * dt) in *. split; intros H; split; nra.
+Qed.
+
+(* the next state is affine in the draw: shifting the draw by d shifts the state by sigma*sqrt(dt)*d *)
+Lemma ou_next_affine theta dt sqdt m s x n d :
+  ou_step1 theta dt sqdt m s x (n + d) == ou_step1 theta dt sqdt m s x n + s * sqdt * d.
+Proof. unfold ou_step1. ring. Qed.
